@@ -847,7 +847,9 @@ class KafkaClient(object):
             return KafkaCodec.decode_api_versions_response(resp)
         else:
             err = ApiVersionResponse(-1, [])
-            self._handle_api_version_update(err)
+            if self._api_versions is None:
+                # Nobody else found out meanwhile either
+                self._handle_api_version_update(err)
             return err
 
     @inlineCallbacks
